@@ -10,7 +10,7 @@ namespace Iox2.PubSub.C17P
 open Iox2.PubSub
 
 theorem xinv_init (cfg : Cfg) : XInv (World.init cfg) :=
-  ⟨⟨List.nodup_nil, List.nodup_nil⟩, fun e he => by cases he, fun e he => by cases he⟩
+  ⟨⟨List.nodup_nil, List.nodup_nil⟩, fun e he => (by cases he), fun e he => (by cases he)⟩
 
 theorem xstep {w : World} (h : XInv w) (op : Op) : XInv (step w op).1 := by
   cases op with
